@@ -124,6 +124,26 @@ fn check_state<T: Dom>(r: &Range<T>, m: &Model, probe: &[P]) -> Result<(), Strin
     let used: Vec<(P, u8)> = r.used_cells().map(|(a, b, v)| ((m.start.0 + a as u32, m.start.1 + b as u32), v.code())).collect();
     let exp: Vec<(P, u8)> = m.cells.iter().filter(|(p, _)| m.contains(**p)).map(|(p, v)| (*p, *v)).collect();
     if used != exp { return Err(format!("used_cells={used:?} expected {exp:?}")); }
+    // the three iterators are double-ended and exact-sized: consumed from the back, and from both ends alternately,
+    // they yield the same items as from the front
+    {
+        let fwd: Vec<(usize, usize, u8)> = cells.iter().map(|(a, b, v)| (*a, *b, v.code())).collect();
+        let mut back: Vec<(usize, usize, u8)> = r.cells().rev().map(|(a, b, v)| (a, b, v.code())).collect(); back.reverse();
+        if back != fwd { return Err("cells.rev differs from cells".to_string()); }
+        let mut it = r.cells(); let (mut f, mut bk) = (vec![], vec![]);
+        loop { match it.next() { Some((a, b, v)) => f.push((a, b, v.code())), None => break } match it.next_back() { Some((a, b, v)) => bk.push((a, b, v.code())), None => break } if it.len() + f.len() + bk.len() != h * w { return Err("cells.len while consuming from both ends".to_string()); } }
+        bk.reverse(); f.extend(bk);
+        if f != fwd { return Err("cells consumed from both ends differ from cells".to_string()); }
+        let rfwd: Vec<Vec<u8>> = rows.iter().map(|row| row.iter().map(|v| v.code()).collect()).collect();
+        let mut rback: Vec<Vec<u8>> = r.rows().rev().map(|row| row.iter().map(|v| v.code()).collect()).collect(); rback.reverse();
+        if rback != rfwd { return Err("rows.rev differs from rows".to_string()); }
+        let mut it = r.rows(); let (mut f, mut bk): (Vec<Vec<u8>>, Vec<Vec<u8>>) = (vec![], vec![]);
+        loop { match it.next_back() { Some(row) => bk.push(row.iter().map(|v| v.code()).collect()), None => break } match it.next() { Some(row) => f.push(row.iter().map(|v| v.code()).collect()), None => break } }
+        bk.reverse(); f.extend(bk);
+        if f != rfwd { return Err("rows consumed from both ends differ from rows".to_string()); }
+        let mut uback: Vec<(P, u8)> = r.used_cells().rev().map(|(a, b, v)| ((m.start.0 + a as u32, m.start.1 + b as u32), v.code())).collect(); uback.reverse();
+        if uback != used { return Err(format!("used_cells.rev={uback:?} expected {used:?}")); }
+    }
     // get / get_value / Index agree with each other and the model
     for i in 0..h + 1 {
         for j in 0..w + 1 {
@@ -287,6 +307,22 @@ fn bfs<T: Dom>(rep: &Report, lo: P, g: u32, nvals: u8, sparse_max: usize) {
         }
     }
     rec(&mut vec![], &positions, nvals, sparse_max, &mut inits);
+    // from_sparse on dense input: every rectangle of 3..6 cells given completely, rows in order but the columns of each row in
+    // every order (the precondition only asks for row-sorted cells); values alternate so that a misplaced cell shows
+    for (s, e) in &rects {
+        let (h, w) = ((e.0 - s.0 + 1) as usize, (e.1 - s.1 + 1) as usize);
+        if h * w < 3 || h * w > 6 || w < 2 { continue; }
+        fn perms(n: usize) -> Vec<Vec<usize>> { if n == 1 { return vec![vec![0]]; } let mut out = vec![]; for p in perms(n - 1) { for i in 0..n { let mut q = p.clone(); q.insert(i, n - 1); out.push(q); } } out }
+        let pw = perms(w);
+        let mut idx = vec![0usize; h];
+        loop {
+            let mut cells = vec![];
+            for r in 0..h { for c in &pw[idx[r]] { let k = r * w + *c; cells.push(((s.0 + r as u32, s.1 + *c as u32), (k % nvals as usize) as u8)); } }
+            inits.push(Op::FromSparse(cells));
+            let mut r = 0; loop { if r == h { break; } idx[r] += 1; if idx[r] < pw.len() { break; } idx[r] = 0; r += 1; }
+            if r == h { break; }
+        }
+    }
 
     let mut nodes: Vec<Node> = vec![];
     let mut states: Vec<(Range<T>, Model)> = vec![];
